@@ -32,10 +32,10 @@ def input_class(x):
     return type(x).__name__ if type(x).__module__ == "builtins" else "object"
 
 
-def collect(ctx: Ctx, profile: str, junk_per_type: int | None):
+def _pass(types, defs, seed, junk_per_type):
+    """One process-order of the universe: unmarshal junk and corrupted wire forms for every type."""
     import typelib
-    rng = random.Random(ctx.seed)
-    defs, types, model = vs.universe(profile)
+    rng = random.Random(seed)
     env = vs.make_env(defs)
     events, meta = [], []
     warnings.simplefilter("ignore")
@@ -61,7 +61,45 @@ def collect(ctx: Ctx, profile: str, junk_per_type: int | None):
         for kind, ident, x in inputs:
             out, _ = vs.out_of(typelib.unmarshal, ann, x)
             events.append({"ev": "unmarshal", "T": T, "out": out})
-            meta.append((kind, ident, x))
+            meta.append((kind, ident, repr(x)[:120], input_class(x)))
+    return events, meta
+
+
+def collect(ctx: Ctx, profile: str, junk_per_type: int | None):
+    """The universe in order in this process and, concurrently, in two other orders in forked processes that have
+    not called typelib yet (reverse; class-free types first and variadic before fixed tuples): routines that share build-time state (handler
+    lookups, hints, contexts -- also state that no cache_clear() reaches) are first built in different orders."""
+    import os
+    defs, types, model = vs.universe(profile)
+    mentions_cls = lambda T: '"cls"' in json.dumps(T)      # noqa: E731
+    orders = {"reverse": types[::-1],
+              "class_free_first": sorted(types, key=lambda T: (mentions_cls(T), '"tup"' in json.dumps(T), len(json.dumps(T))))}
+    children = []
+    for k, (oname, order) in enumerate(orders.items(), 1):
+        r, w = os.pipe()
+        pid = os.fork()
+        if pid == 0:
+            os.close(r)
+            try:
+                ev, me = _pass(order, defs, ctx.seed + k, 8 if junk_per_type is not None else 24)
+                payload = json.dumps({"events": ev, "meta": me})
+            except BaseException as e:
+                payload = json.dumps({"error": repr(e)[:300]})
+            with os.fdopen(w, "w") as fh:
+                fh.write(payload)
+            os._exit(0)
+        os.close(w)
+        children.append((oname, pid, r))
+    events, meta = _pass(types, defs, ctx.seed, junk_per_type)
+    meta = [m + ("forward",) for m in meta]
+    for oname, pid, r in children:
+        with os.fdopen(r) as fh:
+            child = json.loads(fh.read() or '{"error": "no output"}')
+        os.waitpid(pid, 0)
+        if "error" in child:
+            raise tlc.MachineryError(f"{oname}-order process failed: " + child["error"])
+        events += child["events"]
+        meta += [tuple(m) + (oname,) for m in child["meta"]]
     return events, meta, model, len(types)
 
 
@@ -69,14 +107,14 @@ def _violations(rejects, events, meta):
     out = []
     for r in rejects:
         e = events[r["rej"] - 1]
-        kind, ident, x = meta[r["rej"] - 1]
+        kind, ident, xrepr, xclass, order = meta[r["rej"] - 1]
         clause = r["clause"]
         out.append(Violation(
             clause=clause,
-            case={"T": e["T"], "input_kind": kind, "input_id": ident, "input_repr": repr(x)[:120]},
+            case={"T": e["T"], "input_kind": kind, "input_id": ident, "input_repr": xrepr, "order": order},
             fields={"leaf_clause": clause.rsplit(".", 2)[-2] + "." + clause.rsplit(".", 1)[-1] if clause.count(".") >= 2 else clause,
-                    "root_shape": shape(e["T"]), "input_class": input_class(x)},
-            msg=f"unmarshal({json.dumps(e['T'])[:160]}, {repr(x)[:80]}) -> {json.dumps(e['out'])[:200]}"))
+                    "root_shape": shape(e["T"]), "input_class": xclass},
+            msg=f"[{order}] unmarshal({json.dumps(e['T'])[:160]}, {xrepr[:80]}) -> {json.dumps(e['out'])[:200]}"))
     return out
 
 
@@ -86,11 +124,12 @@ def run(ctx: Ctx) -> Outcome:
     tres, rejects = tlc.validate_trace("Wire_Trace", "Wire_Trace.cfg", events, timeout=7200)
     viol = _violations(rejects, events, meta)
     returned = sum(1 for e in events if e["out"]["k"] == "ok")
-    nontrivial = {(json.dumps(e["T"], sort_keys=True), repr(m[2])[:60]) for e, m in zip(events, meta) if e["out"]["k"] == "ok"}
+    nontrivial = {(json.dumps(e["T"], sort_keys=True), m[2][:60]) for e, m in zip(events, meta) if e["out"]["k"] == "ok"}
     cov = {"states": model.distinct, "transitions": model.generated, "exhaustive": True,
            "traces_validated_against_impl": len(events), "evaluations": len(events),
            "distinct_nontrivial": len(nontrivial), "types": ntypes, "calls_returning": returned,
-           "rule": "every type of the TLC-enumerated universe (spec/Terms.tla, profile %s) x (junk pool sample + every single-step "
+           "rule": "every type of the TLC-enumerated universe (spec/Terms.tla, profile %s), visited in order and, in forked processes "
+                   "that had not called typelib, in reverse order and class-free types first, x (junk pool sample + every single-step "
                    "corruption of the wire form of two valid values); non-trivial = the call returned a value (which TLC then "
                    "checks with Conf), distinct by (type, input)" % profile,
            "samples": [events[len(events) // 3], events[2 * len(events) // 3]]}
@@ -115,4 +154,5 @@ def replay(ctx: Ctx, rep: dict) -> Outcome:
     print("  ", ann, repr(x)[:100], "->", out)
     ev = [{"ev": "unmarshal", "T": c["T"], "out": out}]
     _, rejects = tlc.validate_trace("Wire_Trace", "Wire_Trace.cfg", ev)
-    return Outcome(level="model_checking", coverage={"evaluations": 1}, violations=_violations(rejects, ev, [(c["input_kind"], c["input_id"], x)]))
+    return Outcome(level="model_checking", coverage={"evaluations": 1},
+                   violations=_violations(rejects, ev, [(c["input_kind"], c["input_id"], repr(x)[:120], input_class(x), c.get("order", "forward"))]))
